@@ -56,6 +56,10 @@ fn args_for(k: &KeyPlan, a: &Assign, ci: usize) -> (String, String) {
         let _ = write!(s, ", {} = {}", name, rust_str(val));
         let _ = write!(v, ", {} = {}", name, rust_str(val));
     }
+    for (name, val) in &a.fvars {
+        let _ = write!(s, ", {} = {}", name, val.rust());
+        let _ = write!(v, ", {} = move || {}", name, val.rust());
+    }
     if let Some((name, kind, probes)) = &a.loop_var {
         let lit = num_literal(probes[ci], kind);
         let _ = write!(s, ", {} = {}", name, lit);
@@ -192,19 +196,34 @@ pub fn key_fn(k: &KeyPlan, nlocales: usize) -> String {
     s
 }
 
-pub fn main_rs(plan: &Plan, nlocales: usize) -> String {
+/// `refs`: Some(descriptors) = formatter keys are observed too and the binary prints their reference strings
+pub fn main_rs(plan: &Plan, nlocales: usize, refs: Option<&[String]>) -> String {
     let mut s = String::from(PRELUDE);
     s.push_str(PRELUDE_CTX);
+    s.push_str("fn fd(s: &str) -> &'static leptos_i18n::reexports::fixed_decimal::FixedDecimal {\n    Box::leak(Box::new(s.parse().unwrap()))\n}\n\n");
+    if let Some(refs) = refs {
+        s.push_str(crate::emit::FMT_HELPERS);
+        s.push_str("fn refs() {\n    let ds: &[&str] = &[\n");
+        for d in refs {
+            let _ = writeln!(s, "        {},", rust_str(d));
+        }
+        s.push_str("    ];\n    for d in ds {\n        match vref::reference(d) {\n            Ok(r) => println!(\"R|{}\\tOK:{}\", d, esc(&r)),\n            Err(e) => println!(\"R|{}\\tERR:{}\", d, esc(&e)),\n        }\n    }\n}\n\n");
+    }
+    let skip = |k: &KeyPlan| k.has_formatter && refs.is_none();
     for k in &plan.keys {
-        if k.has_formatter {
+        if skip(k) {
             continue;
         }
         s.push_str(&key_fn(k, nlocales));
         s.push('\n');
     }
-    s.push_str("fn main() {\n    let _ = any_spawner::Executor::init_custom_executor(NoopExecutor);\n    let owner = Owner::new();\n    owner.with(|| {\n        let i18n = make_ctx();\n");
+    s.push_str("fn main() {\n    let _ = any_spawner::Executor::init_custom_executor(NoopExecutor);\n");
+    if refs.is_some() {
+        s.push_str("    refs();\n");
+    }
+    s.push_str("    let owner = Owner::new();\n    owner.with(|| {\n        let i18n = make_ctx();\n");
     for k in &plan.keys {
-        if k.has_formatter {
+        if skip(k) {
             continue;
         }
         let _ = writeln!(s, "        key_{}(i18n);", k.idx);
